@@ -60,6 +60,8 @@ int main(int argc, char** argv) {
         long kStep = ok == "huge" ? (thorough ? 1 : 5) : 1;   // (the huge object: every 5th of its ~560 write calls in the quick tier, every one in the thorough tier)
         for (long k = 1; k <= nWrites; k += kStep) for (int e : {EIO, EFBIG}) { if (ok == "huge" && e == EFBIG && !thorough) continue; Plan p; p.p = base; p.p.failWriteCall = k; p.p.failErrno = e; p.text = "write-call-" + std::to_string(k) + "-fails/errno=" + std::to_string(e); plans.push_back(p); }
         { Plan p; p.p = base; p.p.closeFailErrno = EIO; p.text = "close-fails"; plans.push_back(p); }
+        { Plan p; p.p = base; p.p.failSeekCall = -1; p.text = "unseekable-destination"; plans.push_back(p); }   // accepts bytes, cannot be repositioned (pipe, tty): the back-patching seeks fail
+        for (long k = 1; k <= 8; ++k) { Plan p; p.p = base; p.p.failSeekCall = k; p.text = "seek-" + std::to_string(k) + "-fails"; plans.push_back(p); }
         { Plan p; p.p = base; p.p.shortMode = -1; p.text = "all-writes-short"; plans.push_back(p); }
         for (long k = 1; k <= nWrites; k += (ok == "huge" ? (thorough ? 7 : 41) : 1)) { Plan p; p.p = base; p.p.shortMode = (int)k; p.text = "short-write-" + std::to_string(k); plans.push_back(p); }
         if (thorough) {   // pairs: short writes everywhere + one hard fault
@@ -86,7 +88,7 @@ int main(int argc, char** argv) {
             if (o2 == OK && got != good) viols.push_back({"returns-normally/" + cls, ok, pl.text, "save returned normally but the device holds " + std::to_string(got.size()) + " of " + std::to_string(size) + " bytes" + (got.size() == good.size() ? " (content differs)" : "")});
             else if (o2 != OK && o2 != IOS_FAILURE) viols.push_back({std::string("wrong-exception/") + outcomeName(o2) + "/" + cls, ok, pl.text, w2});
             else if (o2 == IOS_FAILURE && inj == 0) viols.push_back({"spurious-failure/" + cls, ok, pl.text, "I/O failure reported although no fault was injected: " + w2});
-            else if (o2 == IOS_FAILURE && got == good && pl.p.closeFailErrno == 0 && pl.p.failWriteCall == 0 && pl.p.capacity < 0 && pl.p.openErrno == 0) viols.push_back({"failure-although-complete/" + cls, ok, pl.text, "I/O failure reported although every byte reached the device (recoverable short writes only)"});
+            else if (o2 == IOS_FAILURE && got == good && pl.p.closeFailErrno == 0 && pl.p.failWriteCall == 0 && pl.p.capacity < 0 && pl.p.openErrno == 0 && pl.p.failSeekCall == 0) viols.push_back({"failure-although-complete/" + cls, ok, pl.text, "I/O failure reported although every byte reached the device (recoverable short writes only)"});
         }
         unlink(path.c_str());
     }
